@@ -18,7 +18,7 @@ from props import c04
 from props.c04 import dense_json, ref_embed, kind_of, to_np, rand_unitary
 
 PROP = "C05"
-LEAN_FILES = ["QibProofs/Properties/C05.lean"]
+LEAN_FILES = ["QibProofs/Properties/C05.lean", "QibProofs/Properties/C05Net.lean"]
 GEN = ()
 DRIVER = "drv_circuit"
 LEVEL_TEXT = ("MATRIX PART ONLY. Lean 4 theorems: the loop of Circuit.as_matrix returns g_k*...*g_1 (first gate applied first), "
@@ -674,6 +674,7 @@ def net_impl(case):
     if cap2:
         out["simnet"] = _net_snapshot(cap2[-1], ref)
         out["sim_nbonds"] = int(cap2[-1].num_bonds)
+        out["sim_consistent"] = bool(cap2[-1].is_consistent())
     # --- the implementation's own views against as_matrix (direct oracle)
     out["_views"] = None if case.get("malformed") else views(circ)
     out["_classes"] = sorted({type(g).__name__ for g in gobjs})
@@ -768,6 +769,8 @@ def simtn_compare(case, o, m):
     d = _cmp_net("network contracted by the simulator", o["simnet"], m)
     if d:
         return d
+    if m["consistentData"] != o["sim_consistent"]:
+        return f"network contracted by the simulator: is_consistent() impl {o['sim_consistent']} != model {m['consistentData']}"
     if "sim" in o:
         if einsum_limit:
             return None     # NumPy's 52-label limit of einsum (resource limit, see ASSUMPTIONS)
@@ -796,6 +799,8 @@ def net_oracle(case, o):
             bad.append(("C05:tensornet:inconsistent", "Circuit.as_tensornet() returned a network that fails is_consistent()"))
         if o["numOpen"] != 2 * n:
             bad.append(("C05:tensornet:open-axes", f"Circuit.as_tensornet() has {o['numOpen']} open axes on {n} wires"))
+    if o.get("sim_consistent") is False:
+        bad.append(("C05:tnsim:inconsistent-network", "the network TensorNetworkSimulator.run hands to contract_einsum fails is_consistent()"))
     return bad
 
 
@@ -816,6 +821,11 @@ def _net_fixed_cases():
                       {"gate": {"kind": "phase", "phi": 0.4, "m": 2}, "particles": [[2, 0], [4, 0]]}])
     yield dict(base, gates=[{"gate": {"kind": "multiplexed", "nc": 1, "targets": [Ry(0.2), Ry(-0.9)]}, "particles": [[0, 1], [0, 2]]},
                             {"gate": {"kind": "ctrl", "cls": "barrier"}, "particles": []}, {"gate": H, "particles": [[0, 1]]}])
+    # two rotation gates whose vectors differ beyond the printed digits of numpy's str(): distinct arrays must get distinct data references
+    rot = lambda v: {"kind": "single", "cls": "RotationGate", "args": [v]}
+    yield dict(base, gates=[{"gate": rot([0.1, 0.2, 0.3]), "particles": [[0, 1]]}, {"gate": rot([0.1, 0.2, 0.3 + 1e-13]), "particles": [[0, 1]]}])
+    yield dict(base, gates=[{"gate": rot([0.1, 0.2, 0.3]), "particles": [[0, 1]]}, {"gate": H, "particles": [[0, 2]]},
+                            {"gate": rot([0.1, 0.2, 0.3]), "particles": [[0, 0]]}])
     # the known two-qubit wraps: refused by the open-axes assertion (model: same refusal)
     yield dict(base, gates=[{"gate": H, "particles": [[0, 1]]}, {"gate": {"kind": "rzz", "cls": "RzzGate", "theta": 1.5}, "particles": [[0, 0], [0, 1]]}])
     yield dict(base, gates=[{"gate": {"kind": "iswap"}, "particles": [[0, 2], [0, 1]]}])
@@ -856,6 +866,10 @@ def gen_net_cases(tier, rng):
                 gd, m = c04.rand_gate_desc(rng, min(len(allp), 3))
                 if wraps_ok or gd["kind"] not in ("iswap", "rzz"):
                     break
+            if gd["kind"] == "single" and rng.random() < 0.25:
+                # rotation gates, some of them with nearly equal vectors (their data references must still differ)
+                v = rng.choice([[0.1, 0.2, 0.3], [0.1, 0.2, 0.3 + 1e-12], [1.0, -2.0, 0.5], [1.0, -2.0, 0.5000000000001], [0.0, 0.0, 0.0]])
+                gd = {"kind": "single", "cls": "RotationGate", "args": [v]}
             gates.append({"gate": gd, "particles": [list(p) for p in rng.sample(allp, m)]})
         yield {"op": "circuit.net", "field_defs": defs, "order": list(ids), "gates": gates}
 
